@@ -310,6 +310,8 @@ def check(rep):
         for c, f in frs:
             rep.count('frame_type', wire.frame_type(f))
         ls, ex = run_case(rep, frs, raws, chunks, label, truncated)
+        if label == 'bulk-one-read' and not thorough:
+            return          # judged by the monitor only in the quick tier (the model is slow on 300 kB byte lists)
         lines.extend(ls)
         expect.extend(ex)
         meta.extend([(label, [r.hex() for r in raws], [c.hex() for c in chunks])] * len(ls))
@@ -367,6 +369,21 @@ def check(rep):
         start = sum(len(r) for r in raws[:pos])
         for off in range(1, 8):
             add(frs, raws, [data[:start + off], data[start + off:]], 'heartbeat-cut')
+
+    # bulk traffic: receive buffers far larger than one frame and larger than the maximum frame size (a reader that falls
+    # behind gets completely filled reads; the carry-over plus the next read exceed 131072 bytes)
+    for i in range(2 if not thorough else 12):
+        frs, raws = gen_stream(rng, rng.randint(25, 40), max_body=20000)
+        while sum(len(r) for r in raws) < 280000:
+            f2, r2 = gen_stream(rng, 10, max_body=20000)
+            frs, raws = frs + f2, raws + r2
+        data = b''.join(raws)
+        if i % 2 == 0:
+            chunks = [data[k:k + 131072] for k in range(0, len(data), 131072)]
+            add(frs, raws, chunks, 'bulk-filled-reads')
+        else:
+            k = rng.randint(1, 9)
+            add(frs, raws, [data[:k], data[k:]], 'bulk-one-read')
 
     # -- parse1 correspondence ------------------------------------------------------------------
     p1 = parse1_cases(rng, 600 if not thorough else 6000)
